@@ -158,6 +158,19 @@ Section Pipeline.
   Definition sink_complete (k : nat) (srcs sink : list M) : bool :=
     forallb (fun y => memb y sink) (expected_sink k srcs).
 
+  (** "until then the message is redelivered": the delivery attempts that ended in a Nack and
+      were not (yet) followed by another attempt of the same message at the same stage *)
+  Definition same_pub (a b : delivery) : bool :=
+    Nat.eqb (d_stage a) (d_stage b) && eqbM (d_msg a) (d_msg b).
+  Fixpoint unfollowed (dl : list delivery) : list delivery :=
+    match dl with
+    | [] => []
+    | d :: dl' => (if negb (is_acked (d_final d)) && negb (existsb (same_pub d) dl') then [d] else [])
+                  ++ unfollowed dl'
+    end.
+  Definition redelivery_ok (dl : list delivery) : bool :=
+    match unfollowed dl with [] => true | _ => false end.
+
   (** nothing is pending any more *)
   Definition quiescentb (k : nat) (st : pstate) : bool :=
     forallb (fun t => match topic st t with [] => true | _ => false end) (seq 0 k).
